@@ -418,6 +418,27 @@ pub fn emit_fn(owner: Option<&str>, name: &str, mut f: syn::ItemFn, contracts: &
             }
         }
     }
+    {
+        // the closure-inlining rules (R22, R34, R37, R46-R53, R56, R57) put a closure body into the enclosing function; a `return` inside it
+        // would then leave the function instead of the closure: such a function is not extracted
+        struct ClosureReturn { found: bool }
+        impl<'ast> syn::visit::Visit<'ast> for ClosureReturn {
+            fn visit_expr_closure(&mut self, c: &'ast syn::ExprClosure) {
+                struct R { found: bool }
+                impl<'ast> syn::visit::Visit<'ast> for R {
+                    fn visit_expr_return(&mut self, _: &'ast syn::ExprReturn) { self.found = true; }
+                    fn visit_expr_closure(&mut self, _: &'ast syn::ExprClosure) {}
+                }
+                let mut r = R { found: false };
+                syn::visit::Visit::visit_expr(&mut r, &c.body);
+                if r.found { self.found = true; }
+                syn::visit::visit_expr_closure(self, c);
+            }
+        }
+        let mut cr = ClosureReturn { found: false };
+        syn::visit::Visit::visit_block(&mut cr, &f.block);
+        if cr.found { lost(&format!("{}: a closure body contains `return` (inlining it would change its meaning)", name)); }
+    }
     Rules { ctx }.visit_item_fn_mut(&mut f);
 
     let mut sig_block: Option<usize> = None;
